@@ -18,7 +18,7 @@ package index
 //     the batches whose own call returned the error; Close succeeds and the
 //     index reopens with everything acknowledged.
 //
-// vf:harness property=C14 cases=nf:0..1;order:0..1 cases.thorough=nf:1..2;order:0..2 sched=1 schedbudget=1 preempt=0 goinline=1 chanslack=8 deadlock=violation clock=zero maxpaths=400000 replay=model-only diff=off
+// vf:harness property=C14 cases=nf:0..1;order:0..1 cases.thorough=nf:1..2;order:0..1 sched=1 schedbudget=1 preempt=0 goinline=1 chanslack=8 deadlock=violation clock=zero maxpaths=400000 replay=model-only diff=off
 // vf:replace hash/crc32.Update vfChecksumUpdate
 // vf:replace io.CopyN vfCopyN
 // vf:replace (*github.com/RoaringBitmap/roaring.Bitmap).ReadFrom vfRoaringReadFrom
